@@ -16,12 +16,23 @@ def _tup(t):
 
 
 PATTERNS = [_tup(t) for t in param("patterns", [])]
-EXPRS = [untraced(pat.to_expression)(t) for t in PATTERNS]
+BASE = 1000     # letters are the ints 1000..1003, computed at run time: equal values are then distinct objects (a matcher must compare by ==, not identity)
+
+
+def _lift(t):
+    return ("atom", BASE + t[1]) if t[0] == "atom" else (t[0],) + tuple(_lift(c) for c in t[1:])
+
+
+EXPRS = [untraced(pat.to_expression)(_lift(t)) for t in PATTERNS]
 L = param("L", 4)
 
 
 def _seq(n, ws):
     return list(ws[:n])
+
+
+def _items(w):
+    return [BASE + x for x in w]
 
 
 def _ok_letters(ws):
@@ -34,11 +45,11 @@ def h_match(p: int, n: int, w0: int, w1: int, w2: int, w3: int, w4: int, w5: int
     post: _
     """
     w = _seq(n, [w0, w1, w2, w3, w4, w5])
-    r = matcher.match(EXPRS[p], w)
+    r = matcher.match(EXPRS[p], _items(w))
     exp = pat.ref_match(PATTERNS[p], w)
     ok = (r is not None) == exp
     if r is not None:
-        ok = ok and r.start == 0 and r.end == n and r.tokens == w
+        ok = ok and r.start == 0 and r.end == n and r.tokens == _items(w)
     return fin(ok, exp and n >= 1)
 
 
@@ -48,7 +59,7 @@ def h_nfa_match(p: int, n: int, w0: int, w1: int, w2: int, w3: int, w4: int, w5:
     post: _
     """
     w = _seq(n, [w0, w1, w2, w3, w4, w5])
-    r = matcher.nfa_match(EXPRS[p], w)
+    r = matcher.nfa_match(EXPRS[p], _items(w))
     exp = pat.ref_match(PATTERNS[p], w)
     return fin(bool(r) == exp, exp and n >= 1)
 
@@ -59,12 +70,12 @@ def h_starts_with(p: int, n: int, w0: int, w1: int, w2: int, w3: int, w4: int, w
     post: _
     """
     w = _seq(n, [w0, w1, w2, w3, w4, w5])
-    r = matcher.starts_with(EXPRS[p], w)
+    r = matcher.starts_with(EXPRS[p], _items(w))
     exp = pat.ref_starts_with(PATTERNS[p], w)
     if exp is None:
         ok = r is None
     else:
-        ok = r is not None and r.start == 0 and r.end == exp and r.tokens == w[:exp]
+        ok = r is not None and r.start == 0 and r.end == exp and r.tokens == _items(w[:exp])
     return fin(ok, exp is not None)
 
 
@@ -100,7 +111,7 @@ def _decode(code, pos):
 @untraced
 def _build_and_probe(t):
     import sys
-    expr = pat.to_expression(t)
+    expr = pat.to_expression(_lift(t))
     dfa = _orig_n2d(_orig_e2n(expr))
     from codelimit.common.gsm.matcher import match, nfa_match
     return (match(expr, []) is not None), bool(nfa_match(expr, [])), len(dfa.accepting)
